@@ -315,3 +315,93 @@ def c13(run):
                        "the CurveCache state machine; non-trivial = table not constant")
     trace_stage(run, "extrapolation", "c13", nontrivial=lambda e: len(set(e["out"].get("ext", []))) > 2)
     _cache_stage(run, "arrival")
+
+
+TABLE_KEYS = {"rbf", "sn", "lw", "eta", "cost"}
+
+
+def _strip_tables(x):
+    if isinstance(x, dict):
+        return {k: _strip_tables(v) for k, v in x.items() if k not in TABLE_KEYS}
+    if isinstance(x, list):
+        return [_strip_tables(v) for v in x]
+    return x
+
+
+def _event_key(e):
+    if "in" in e:
+        return vflib.canon({"op": e.get("op"), "in": _strip_tables(e["in"])})
+    return vflib.canon({k: v for k, v in e.items() if k not in ("ans", "res", "out", "session_failed")})
+
+
+def _event_out(e):
+    if "out" in e:
+        return e["out"]
+    return {k: e[k] for k in ("ans", "res") if k in e}
+
+
+@check("C20")
+def c20(run):
+    run.cov["rule"] = ("total events: every driver of the framework (model queries, step iterators, cost models, request bounds, supplies, "
+                       "fixed-point search, the nine + six analyses on random well-formed inputs, derived curves, extrapolation, cache "
+                       "histories) plus a corner-case driver (Never, empty interference, zero blocking, limit 1, D<C, subchain = whole "
+                       "workload, budget = period, step-less search spaces) is run by a dev build (debug assertions + overflow checks) and "
+                       "by a release build of the harness on identical seeded inputs; the two traces are joined call by call and TLC accepts a "
+                       "call iff both builds returned (no panic, no hang) the same value; non-trivial = the dev outcome is not Ok(0)/empty; "
+                       "distinct = canonical JSON of the input")
+    run.assumptions += ["well-formed inputs as in DESIGN.md §3.2", "hang = no return within the watchdog (20 s; corner driver 6 s)"]
+    drivers = [("corner", ["--watchdog-ms", "6000"]), ("eta", []), ("steps", []), ("cost", []), ("cost_trace", []), ("demand", []),
+               ("supply", []), ("search", []), ("rta", []), ("ros2", []), ("c12", []), ("c13", []),
+               ("cache", ["--kind", "arrival"]), ("cache", ["--kind", "wcet"])]
+    wd = run.sub("profiles")
+    merged = os.path.join(wd, "trace.ndjson")
+    full = []
+    with open(merged, "w") as mf:
+        for i, (drv, extra) in enumerate(drivers):
+            fa = os.path.join(wd, "%02d-%s-dev.ndjson" % (i, drv))
+            fb = os.path.join(wd, "%02d-%s-rel.ndjson" % (i, drv))
+            vflib.run_driver(drv, fa, run.tier, run.seed, profile="dev", extra=extra)
+            vflib.run_driver(drv, fb, run.tier, run.seed, profile="release", extra=extra)
+            ea, eb = vflib.read_events(fa), vflib.read_events(fb)
+            bykey = {}
+            for e in eb:
+                bykey.setdefault(_event_key(e), []).append(e)
+            for e in ea:
+                k = _event_key(e)
+                lst = bykey.get(k)
+                if lst:
+                    o = {"dev": _event_out(e), "rel": _event_out(lst.pop(0))}
+                else:
+                    o = {"only": "dev", "dev": _event_out(e)}
+                line = {"op": "total", "in": {"driver": drv, "op0": e.get("op"), "n": len(full)}, "out": o}
+                mf.write(json.dumps(line) + "\n")
+                full.append(dict(op="total", driver=drv, event=e, out=o, **{"in": dict(e.get("in", {}), driver=drv, op0=e.get("op"))}))
+            for k, lst in bykey.items():
+                for e in lst:
+                    o = {"only": "rel", "rel": _event_out(e)}
+                    line = {"op": "total", "in": {"driver": drv, "op0": e.get("op"), "n": len(full)}, "out": o}
+                    mf.write(json.dumps(line) + "\n")
+                    full.append(dict(op="total", driver=drv, event=e, out=o, **{"in": dict(e.get("in", {}), driver=drv, op0=e.get("op"))}))
+            os.remove(fa)
+            os.remove(fb)
+    res = vflib.tlc_trace(os.path.join(vflib.SPEC, "trace"), "TraceLib.tla", "TraceLib.cfg", merged, wd, timeout=1800)
+    for rec in full:
+        o = rec["out"].get("dev", rec["out"].get("rel"))
+        nontriv = not (isinstance(o, dict) and (o.get("ok") == 0 or o.get("ans") in (0, 1)))
+        run.count({"driver": rec["driver"], "in": _strip_tables(rec["in"])}, nontriv)
+    for rec in full[:: max(1, len(full) // 3)][:3]:
+        run.sample({"driver": rec["driver"], "in": _strip_tables(rec["in"]), "out": rec["out"]})
+    run.cov["states"] += res["states"]
+    run.cov["transitions"] += res["transitions"]
+    run.cov["traces_validated_against_impl"] += 2 * res["lines"]
+    for (gl, op, checks) in res["rejects"]:
+        rec = full[gl - 1]
+        for c in checks:
+            panic = ""
+            for side in ("dev", "rel"):
+                o = rec["out"].get(side)
+                if isinstance(o, dict) and "panic" in o:
+                    panic = o["panic"]
+            run.fail(dict(stage="profiles", op=rec["in"].get("op0"), check=c, record=rec, line=gl,
+                          tags=rec["in"].get("tags") or [], panic=panic))
+    run.stage("profiles", kind="trace-validation", drivers=[d for d, _ in drivers], events=len(full), rejected=len(res["rejects"]))
